@@ -632,11 +632,19 @@ pub fn execute(c: &Case) -> Exec {
         let during = tripped_in.unwrap_or("-");
         let phase = if during == e { "decode" } else { during };
         let prefixed = prefixed_source_bytes(&d);
-        let class = if phase == "decode" && decode_peak.saturating_sub(prefixed) <= limit {
+        // F13 (DESIGN.md section 11): decoding stores sourceRoot + "/" + source per source. A map
+        // obtained by rewrite or flatten names its sources by that prefixed form and prefixes them
+        // again (generation k holds (2k+1) times the bytes of the first copies); the workload goes
+        // two generations deep and decodes their serialisations, so up to POST_DECODE_GENERATIONS
+        // times those bytes are this one finding, in whichever call the limit happens to be crossed.
+        const POST_DECODE_GENERATIONS: u64 = 24;
+        let (phase, class) = if phase == "decode" && decode_peak.saturating_sub(prefixed) <= limit {
             // within the limit but for the copies of sourceRoot that decoding makes per source
-            "sourceRoot-x-sources"
+            ("decode", "sourceRoot-x-sources")
+        } else if phase != "decode" && prefixed > 0 && peak.saturating_sub(prefixed.saturating_mul(POST_DECODE_GENERATIONS)) <= limit {
+            ("after-decode", "sourceRoot-x-sources")
         } else {
-            "unexplained"
+            (phase, "unexplained")
         };
         verdict = Verdict::Violated(
             format!("alloc:{phase}:{class}"),
